@@ -234,6 +234,9 @@ def pick_fault(r: Rng, ref_res: dict, kinds: typing.Sequence[str]) -> typing.Opt
         if kind == "write_oserror":
             f["errno"] = r.choice(["ENOSPC", "EIO", "EDQUOT"])
         return f
+    if kind == "refused_chmod":
+        n = sum(1 for e in ref_res.get("events", []) if isinstance(e, list) and len(e) > 1 and e[1] == "os.chmod")
+        return {"kind": "oserror_on", "on": "os.chmod", "nth": biased(n) if n else r.below(6), "errno": r.choice(["EPERM", "EACCES"])}
     if kind == "extprog_fail":
         n = len(wpf)
         if n == 0:
